@@ -210,3 +210,42 @@ def in4_public_subscribers_have_no_lifecycle_state(ctx, rep):
         if not ov:
             rep.ok(R, "on_unsubscribe-is-default:%s" % a["path"].split("::")[-1], "", "%s keeps the default (empty) on_unsubscribe" % a["path"])
     rep.floor(R, "exported subscriber types", n, 2)
+
+
+TRY_LOCKS = {"std::sync::Mutex::try_lock", "std::sync::RwLock::try_read", "std::sync::RwLock::try_write"}
+CALLBACK_TRAITS = ("Subscriber", "Reducer", "Middleware", "Selector")
+
+
+def try_lock_sites(ctx, bodies):
+    out = []
+    for b in bodies:
+        for s in ctx.prog.sites(b):
+            if s.ck in TRY_LOCKS:
+                out.append(s)
+    return out
+
+
+def in5_shared_callbacks_never_skip_on_contention(ctx, rep):
+    """callback objects of types the crate exports may be registered with several stores, whose
+    reducer threads then call them concurrently: their methods must wait for their own internal
+    locks (lock()), never try_lock - a try_lock's failure path makes one store's notification
+    depend on whether another store is inside the same object"""
+    R = "IN5"
+    n = 0
+    for a in ctx.prog.facts.adts.values():
+        if a.get("vis") != "Public":
+            continue
+        roots = [b for b in ctx.prog.bodies if (b.j.get("impl_adt") or "") == a["path"] and (b.j.get("impl_trait") or "").split("::")[-1].split("<")[0] in CALLBACK_TRAITS]
+        if not roots:
+            continue
+        n += 1
+        reach = ctx.sync_reach(roots)
+        for p in reach:
+            rep.note_fn(p)
+        ss = try_lock_sites(ctx, reach.values())
+        nm = a["path"].split("::")[-1]
+        if not ss:
+            rep.ok(R, "waits-for-own-locks:" + nm, "", "no try_lock/try_read/try_write in the %d bodies reachable from %s's callback methods" % (len(reach), a["path"]))
+        for s in ss:
+            rep.bad(R, "waits-for-own-locks:%s:%s" % (nm, short(s.body.path)), s.where, "%s in a callback of the exported type %s: when two stores share the object, one store's call is skipped or altered while the other is inside" % (s.ck.split("::")[-1], a["path"]))
+    rep.floor(R, "exported callback types", n, 2)
